@@ -93,7 +93,8 @@ def replay_serde_truncated(d):
 
 def replay_layout(d):
     """Real PackedEncoder on the concrete schema (from a stale encoder state) vs. the reference tiling."""
-    from fcp.encoding import make_encoder, PackedEncoderContext
+    from fcp.encoding import make_encoder, PackedEncoderContext, Value
+    from fcp.specs.type import UnsignedType
 
     from .layoutref import leaf_list
 
@@ -102,7 +103,7 @@ def replay_layout(d):
     impl = [i for i in fcp.impls if i.protocol == "can"][0]
     enc = make_encoder("packed", fcp, PackedEncoderContext().with_unroll_arrays(d["unroll"]))
     enc.bitstart = d.get("pre_bitstart", 0)
-    enc.encoding = ["<stale>"]
+    enc.encoding = [Value("stale_piece_of_an_earlier_generate", UnsignedType("u8"), 0, 8)]
     try:
         out = enc.generate(impl)
     except Exception as e:
@@ -222,3 +223,146 @@ def replay_permuted_dbc(d):
         diff = [(x, y) for x, y in zip(la, lb) if x != y][:3]
         return True, f"DBC text differs, e.g. {diff}"
     return False, "same DBC"
+
+
+# ---------------------------------------------------------------- parser / imports
+def _materialize(files, names):
+    import os
+    import re
+    import tempfile
+
+    d = tempfile.mkdtemp(prefix="verif_replay_")
+    for rel, text in files.items():
+        text = re.sub(r"\b[NR]\d+\b", lambda m: names.get(m.group(0), m.group(0)), text)
+        p = os.path.join(d, rel)
+        os.makedirs(os.path.dirname(p), exist_ok=True)
+        open(p, "w").write(text)
+    return d
+
+
+def _get(path):
+    from fcp.parser import get_fcp
+    from fcp.error import Logger
+
+    return get_fcp(path, Logger({}))
+
+
+def _leaf_type(t):
+    while hasattr(t, "underlying_type"):
+        t = t.underlying_type
+    return t
+
+
+def replay_parser_refs(d):
+    import os
+    import shutil
+
+    names = d["names"]
+    root = _materialize(d["files"], names)
+    try:
+        try:
+            r = _get(os.path.join(root, "main.fcp"))
+        except Exception as e:
+            return True, f"get_fcp raised {type(e).__name__}: {e}"
+        decls, refs = d["decls"], d["refs"]
+        resolv = {k: [x for x in vis if names[x] == names[k]] for k, (vis, _, _) in refs.items()}
+        expect_ok = all(resolv[k] for k in refs)
+        if r.is_ok() != expect_ok:
+            return True, (f"parser returned {'Ok' if r.is_ok() else 'Err: ' + repr(r.err())[:120]} but "
+                          f"{'every reference names an earlier declaration' if expect_ok else 'some reference names nothing declared before its use'}; names={names}")
+        if r.is_ok():
+            fcp = r.unwrap()
+            for k, (vis, encl, fname) in refs.items():
+                st = fcp.get_struct(names[encl]).unwrap()
+                lt = _leaf_type([f for f in st.fields if f.name == fname][0].type)
+                want = "StructType" if decls[resolv[k][0]] == "struct" else "EnumType"
+                if type(lt).__name__ != want or fcp.get_type(lt).is_nothing():
+                    return True, f"reference {names[k]} in {names[encl]}.{fname} tagged {type(lt).__name__}, expected {want}"
+        else:
+            text = " | ".join(str(m[0]) for m in r.err().msg)
+            ok = any((not resolv[k]) and names[k] in text and names[refs[k][1]] in text for k in refs)
+            if not ok:
+                return True, f"error does not name the unresolved type and its struct: {text[:200]}"
+        return False, "parser verdict matches the declare-before-use rule"
+    finally:
+        shutil.rmtree(root, ignore_errors=True)
+
+
+def _cmp_dict(fcp):
+    d = fcp.to_dict()
+
+    def norm(x):
+        if isinstance(x, dict):
+            return tuple(sorted((k, norm(v)) for k, v in x.items()))
+        if isinstance(x, list):
+            return tuple(norm(v) for v in x)
+        return x
+    return {k: sorted((norm(e) for e in d.get(k, [])), key=repr) for k in ("structs", "enums", "impls", "services", "devices")}
+
+
+def replay_parser_split(d):
+    import os
+    import shutil
+
+    files = dict(d["split_files"])
+    files["single.fcp"] = d["single_text"]
+    root = _materialize(files, d["names"])
+    try:
+        try:
+            a, b = _get(os.path.join(root, "main.fcp")), _get(os.path.join(root, "single.fcp"))
+        except Exception as e:
+            return True, f"get_fcp raised {type(e).__name__}: {e}"
+        if a.is_ok() != b.is_ok():
+            return True, f"split: {'Ok' if a.is_ok() else repr(a.err())[:100]}; single file: {'Ok' if b.is_ok() else repr(b.err())[:100]}"
+        if not a.is_ok():
+            return False, "both rejected"
+        da, db = _cmp_dict(a.unwrap()), _cmp_dict(b.unwrap())
+        diff = {k: (len(da[k]), len(db[k])) for k in da if da[k] != db[k]}
+        if diff:
+            return True, f"split schema differs from the single-file schema in {diff} (counts split, single)"
+        return False, "split schema equals the single-file schema"
+    finally:
+        shutil.rmtree(root, ignore_errors=True)
+
+
+def replay_parser_import_error(d):
+    import os
+    import pathlib
+    import shutil
+
+    root = _materialize(d["files"], d["names"])
+    try:
+        try:
+            r = _get(os.path.join(root, "main.fcp"))
+        except Exception as e:
+            return True, f"get_fcp raised {type(e).__name__}: {e}"
+        if r.is_ok():
+            if d["error_kind"] == "resolve":
+                return False, "reference happened to resolve"
+            return True, f"{d['error_kind']} error in module {d['module']} not reported: Ok returned"
+        for msg, node, _ in r.err().msg:
+            fn = getattr(getattr(node, "meta", None), "filename", None)
+            if d["module"] in str(msg) or (fn is not None and pathlib.PurePosixPath(str(fn)).name == d["module"]):
+                return False, "error names the module"
+        return True, f"error does not name module {d['module']}: {[str(m[0])[:80] for m in r.err().msg]}"
+    finally:
+        shutil.rmtree(root, ignore_errors=True)
+
+
+def replay_merge(d):
+    from fcp.specs.v2 import FcpV2
+
+    cats = ("structs", "enums", "impls", "services", "devices")
+    a, b = FcpV2(), FcpV2()
+    exp = {}
+    for ci, c in enumerate(cats):
+        xa = [f"{c}_a{i}" for i in range(d["la"][ci])]
+        xb = [f"{c}_b{i}" for i in range(d["lb"][ci])]
+        a.__dict__[c] = list(xa)
+        b.__dict__[c] = list(xb)
+        exp[c] = xa + xb
+    a.merge(b)
+    bad = {c: (getattr(a, c), exp[c]) for c in cats if getattr(a, c) != exp[c]}
+    if bad:
+        return True, f"merge result {bad} (got, expected importer ++ imported)"
+    return False, "merge concatenates every category"
